@@ -16,6 +16,7 @@ Expected(e) ==
       [] e.kind = "append-own" -> ApplyOp(d, "appendval", x)
       [] e.kind = "append-own-move" -> ApplyOp(A([d.e EXCEPT ![e.i + 1] = U]), "appendval", x)          \* the moved-from element is Undefined
       [] e.kind = "merge-self" -> ApplyOp(d, "merge", d)
+      [] e.kind = "merge-own-move" -> ApplyOp(A([d.e EXCEPT ![e.i + 1] = U]), "merge", x)               \* (Merge of a non-container changes nothing)
       [] e.kind = "then-key" -> WriteAt(d, <<e.i>>, "assign", One)
       [] e.kind = "then-index" -> WriteAt(d, <<0 - 1>>, "assign", One)
       [] e.kind = "then-append" -> ApplyOp(d, "appendval", One)
